@@ -17,7 +17,8 @@ CHILD = str(Path(__file__).resolve().parent.parent / "_replay16.py")
 
 def package(features: list[str], k: int) -> Path:
     f = set(features)
-    main = ["from __future__ import annotations", "from typing import Literal", "from pathlib import Path, PurePath", "from decimal import Decimal", "", ""]
+    main = ["from __future__ import annotations", "from typing import Literal", "from pathlib import Path, PurePath", "from decimal import Decimal",
+            "from email.parser import Parser", "from html.parser import HTMLParser", "from collections import OrderedDict, deque", "from collections.abc import Sized", "", ""]
     main += ["def plain(a: int) -> int:", "    ...", ""]
     if "literal-none" in f:
         main += ['def lit(x: Literal["z"] | None = None, y: Literal[1, 2] | None = None) -> int:', "    ...", "",
@@ -25,7 +26,8 @@ def package(features: list[str], k: int) -> Path:
     if "varargs-tuple" in f:
         main += ["def va(*args: int, **kw: str) -> int:", "    ...", "", "class VaHolder:", "    def m(self, *rest: str) -> tuple[int, str]:", "        ...", ""]
     if "foreign" in f:
-        main += ["def fo(p: Path, q: PurePath) -> Decimal:", "    ...", ""]
+        main += ["def fo(p: Path, q: PurePath, a: Parser, b: HTMLParser) -> Decimal:", "    ...", "",
+                 "def fo2(o: OrderedDict[str, int], s: Sized, d: deque[int]) -> int:", "    ...", ""]
     if "inherited-twice" in f:
         main += ["class _Base:", '    def shared(self, a: Literal["z"] | None = None, *more: int) -> int:', "        ...", "",
                  "class SubA(_Base):", "    pass", "", "class SubB(_Base):", "    pass", ""]
